@@ -4,7 +4,8 @@
 (* node line: {"id":n,"p":[public priorities],"st":{g,now,vec,prio,used,ord,lp},"succ":[[k,m,a,out,to],..]} *)
 (*   k: 1 next (out = selected message, 0 none) 2 setprio(m,a) 3 addback(m) 4 addfront(m) 5 conduse(m) *)
 (*      6 readd(m) 7 tick(a) 8 otherclear (a second MessageMap instance cleared/reloaded/destroyed)   *)
-(*      9 reload (clear + all definitions again)                                                      *)
+(*      9 reload (clear + all definitions again) 10 replace(m,a) (definition of m read again with      *)
+(*      replace and priority a); out = -99 on any edge: the real code crashed on this input            *)
 (* mode "monitor" (default): the P monitor of Poll.tla runs in lock-step with G.                       *)
 (* mode "fidelity": every edge is compared with the concrete step function of S (normal forms).       *)
 EXTENDS Poll, Json, IOUtils
@@ -13,10 +14,10 @@ G == ndJsonDeserialize(IOEnv.VF_GRAPH)
 Mode == IF "VF_MODE" \in DOMAIN IOEnv THEN IOEnv.VF_MODE ELSE "monitor"
 Target == IF "VF_TARGET" \in DOMAIN IOEnv THEN IOEnv.VF_TARGET ELSE ""
 (* kinds of edges that may be followed (sub-alphabet), as a string of digits, e.g. "17" = next + tick *)
-Mask == IF "VF_MASK" \in DOMAIN IOEnv THEN IOEnv.VF_MASK ELSE "123456789"
-KindName == <<"next", "setprio", "addback", "addfront", "conduse", "readd", "tick", "otherclear", "reload">>
-Digits == <<"1", "2", "3", "4", "5", "6", "7", "8", "9">>
-Allowed == {k \in 1..9 : \E i \in 1..Len(Mask) : SubSeq(Mask, i, i) = Digits[k]}
+Mask == IF "VF_MASK" \in DOMAIN IOEnv THEN IOEnv.VF_MASK ELSE "123456789A"
+KindName == <<"next", "setprio", "addback", "addfront", "conduse", "readd", "tick", "otherclear", "reload", "replace">>
+Digits == <<"1", "2", "3", "4", "5", "6", "7", "8", "9", "A">>
+Allowed == {k \in 1..10 : \E i \in 1..Len(Mask) : SubSeq(Mask, i, i) = Digits[k]}
 
 InitPrios == IF "VF_INITPRIOS" \in DOMAIN IOEnv THEN LET t == IOEnv.VF_INITPRIOS IN [i \in 1..Len(t) |-> atoi(SubSeq(t, i, i))] ELSE <<>>
 K == IF "VF_K" \in DOMAIN IOEnv THEN atoi(IOEnv.VF_K) ELSE 2
@@ -51,7 +52,8 @@ SelValid(n, e) == e[1] # 1 \/ (IF Active(G[n].p) = {} THEN e[4] = 0 ELSE e[4] \i
 
 SigOf(n, e, m2) ==
   LET prio2 == G[e[5]].p IN
-  IF ~SelValid(n, e) THEN "C17:selected-message-without-priority-or-none"
+  IF e[4] = -99 THEN "C17:crash-in-real-code"
+  ELSE IF ~SelValid(n, e) THEN "C17:selected-message-without-priority-or-none"
   ELSE IF ~WaitOk(m2, prio2, K)
        THEN (IF m2.pert[WaitWitness(m2, prio2, K)] = 0 THEN "C17:wait-unperturbed" ELSE "C17:wait-perturbed")
   ELSE IF ~PropOk(m2, prio2) THEN "C17:proportion"
@@ -81,8 +83,14 @@ StepS(s, e) ==
     [] e[1] = 7 -> [s |-> TickF(s, e[3]), out |-> 0]
     [] e[1] = 8 -> [s |-> OtherClearF(s), out |-> 0]
     [] e[1] = 9 -> [s |-> ReloadF(s, InitPrios, ReAddPinned), out |-> 0]
-EdgeConforms(n, e) == LET r == StepS(ToS(G[n].st), e) IN
-                      r.out = e[4] /\ Norm(r.s, CapBase) = Norm(ToS(G[e[5]].st), CapBase)
+    [] e[1] = 10 -> [s |-> ReAddF(s, e[2], e[3], ReAddPinned), out |-> 0]
+(* a recorded queue that holds something that is not one of the N messages (e.g. a deleted instance) cannot be mapped to S *)
+Mappable(x) == \A i \in 1..Len(x.vec) : x.vec[i] \in 1..NG
+EdgeConforms(n, e) ==
+  \/ e[4] = -99
+  \/ /\ Mappable(G[n].st) /\ Mappable(G[e[5]].st) /\ e[4] \in 0..NG
+     /\ LET r == StepS(ToS(G[n].st), e) IN
+        r.out = e[4] /\ Norm(r.s, CapBase) = Norm(ToS(G[e[5]].st), CapBase)
 NodeConforms(n) == \A j \in 1..Len(G[n].succ) : EdgeConforms(n, G[n].succ[j])
 Shard == 64
 FidelityInit == node = 0 /\ gmon = MonInit(NG) /\ lastIn = [k |-> "init", m |-> 0, a |-> 0, out |-> 0, sig |-> ""] /\ ok = TRUE
